@@ -69,10 +69,10 @@ func gen(t *rapid.T) Case {
 			s = Step{Kind: "use", Router: rapid.IntRange(0, 1).Draw(t, "router"), MWs: rapid.SliceOfN(rapid.IntRange(0, 7), 1, 2).Draw(t, "usemws")}
 		case k < 7:
 			s = Step{Kind: "mkprefix", Obj: rapid.IntRange(0, nobj-1).Draw(t, "parent"), Text: rapid.SampledFrom(prefixTexts).Draw(t, "ptext"), MWs: mws(2)}
-			if nobj > 2 && rapid.Bool().Draw(t, "nestUnderFacade") {
+			if nobj > 2 && rapid.IntRange(0, 3).Draw(t, "nestUnderFacade") > 0 {
 				s.Obj = rapid.IntRange(2, nobj-1).Draw(t, "facadeParent") // nest under an existing Prefix object
 			}
-			if len(lastMWs) > 0 && rapid.Bool().Draw(t, "sameCommonList") {
+			if len(lastMWs) > 0 && rapid.IntRange(0, 3).Draw(t, "sameCommonList") > 0 {
 				s.MWs = lastMWs // the caller's "common" list again (the harness hands out one slice per list)
 			}
 			if len(s.MWs) > 0 {
